@@ -6,7 +6,11 @@ PROP = {
              "property statement as a Go oracle: empty pool, exhaustive n=1,2 over alive x seqno{0,1,2,3,2^32-2,2^32-1} x "
              "rtt{1,2,3} x 3 strategies x every previous choice, sampled n=3,4 from the grid, up to 8 connections with heads "
              "around arbitrary newest heads and arbitrary/equal/negative RTTs; thorough tier: the whole grid n=1..4 x both "
-             "strategies x every previous choice (c13.ubx); pools built through the real addConnection (c13.add): every arrival "
+             "strategies x every previous choice (c13.ubx); heads that RISE while the refresh runs (updateBest reads every head "
+             "twice holding only the pool lock: the mock's MasterHead() answers seqno1 on the first call and seqno2 >= seqno1 "
+             "later; exhaustive n=1 and sampled n=2..4 over alive x seqno{0,1,2,2^32-2} x rise{0,1,2} x rtt, n=2 exhaustive in the "
+             "thorough tier; oracle: the choice among the alive connections whose second-read head is at most one block behind "
+             "the maximum of the first reads); pools built through the real addConnection (c13.add): every arrival "
              "order of every subset of 4 configured servers (64 orders) x both strategies x sampled alive/seqno/RTT, and up to 8 of "
              "12 sparse ids in random arrival order: pool order as listed by Status(), bestConn after initialisation and the "
              "choice of updateBest vs the model; oracles: Status() is in configuration order, the choice is the property's choice "
@@ -26,13 +30,20 @@ PROP = {
              "waiting + caller satisfied at once + head arrives; oracle: each caller's verdict is what the best connection's heads "
              "demand) and with all heads queued before the Run goroutine is started (batch shape; oracle wait-lost-head: a caller "
              "whose target the best connection reached must not time out). Regression oracles for the four repaired defects and a 1.5 s stress under the real Run loop (publisher + 8 "
-             "callers with 20 ms timeouts + updateBest every 20 ms, watchdog 5 s, key pool-stuck) (c13.repro). Source obligations "
+             "callers with 20 ms timeouts + updateBest every 20 ms, watchdog 5 s, key pool-stuck), refreshes with a dead previous "
+             "choice while a publisher feeds the alive lowest-RTT connection through the real SetMasterHead and the real Run "
+             "drains (every refresh must choose it, key updatebest-racing-head), and a head injected at a schedule point of the "
+             "connection interface right after subscribe has read the best head (key subscribe-lost-wakeup) (c13.repro). Source obligations "
              "(C13_gen.v over the go/ast translation of liteapi/pool): no method calls, while holding its receiver's lock, a method "
              "that takes that lock (transitively); lock kinds and call structure are those of the model; the only blocking send "
              "under a lock is subscribe's into its own fresh channel. A class is (kind, family, strategy/size bucket, outcome)."),
     'explanation': ("coq/Properties/C13.v, for the model of the repaired liteapi/pool: update_best returns, for every pool, "
                     "strategy and previous choice, exactly the choice the property prescribes among the alive connections at "
-                    "most one block behind the newest head (else the previous choice); over all interleavings of any number of "
+                    "most one block behind the newest head (else the previous choice), also when heads rise between the two reads of "
+                    "updateBest (update_best2: choice among the alive connections at most one block behind the maximum of the first "
+                    "reads; a risen head keeps its connection a candidate; every refresh step of the LTS with arbitrary earlier first "
+                    "reads; the uint32-difference formulation maxSeqno - seqno <= 1 is refuted although it equals the code's test on "
+                    "every snapshot); over all interleavings of any number of "
                     "connections, waiters and head updates: a waiter returns nil iff it received a head >= its target that was "
                     "published for the then-best connection, a sufficient head sent to a waiting caller is never lost, a "
                     "notification reaches every registered waiter, timeout/cancel is always enabled and a caller that left "
@@ -49,7 +60,7 @@ PROP = {
                     "notifySubscribers that re-acquires RLock is refuted (permanent deadlock). coq/Properties/C13_gen.v re-checks "
                     "the absence of lock re-acquisition and of blocking sends under a lock on today's source."),
     'assumptions': ["the LTS abstracts the Go scheduler: atomic steps are critical sections without blocking operations and without lock acquisitions (both re-checked syntactically on the source by C13_gen.v); sync.RWMutex is modelled as writer-preferring with one announced writer at a time",
-                    "updateBest reads the heads one by one, the model at once (the comparison is monotone in a connection's head)",
+                    "updateBest's two passes over the connections are modelled as two reads of all heads (first reads <= second reads: heads only rise); IsOK and AverageRoundTrip are read once, in the second pass",
                     "'the best connection reports a head' = Run handles an update whose connection id equals bestConn's; a switch of bestConn does not wake waiters (observation)",
                     "pools without connections (subscribe dereferences nil bestConn) are outside the quantifier (1..4 connections); proved impossible with >= 1 connection",
                     "connection ids are pairwise different (indices of the servers in the configuration), so sort.Slice's result is determined; addConnection is modelled for initialisation (before waiters exist), not interleaved with the wait-list protocol",
